@@ -57,9 +57,12 @@ pub struct SyncCall<'a> {
 pub fn sync_calls(hist: &History) -> BTreeMap<u16, Vec<SyncCall<'_>>> {
     let mut by_ch: BTreeMap<u16, Vec<SyncCall>> = BTreeMap::new();
     for c in &hist.conn {
-        if let ConnRec::OpenChannel { result: Ok(id), invoke, ret, for_thread, .. } = c {
+        if let ConnRec::KeptClosed { id, invoke, .. } = c {
+            by_ch.entry(*id).or_default().push(SyncCall { want: Want::ChannelCloseOk, rec: None, invoke: *invoke, ret: u64::MAX, desc: format!("owner close kept {}", id) });
+        }
+        if let ConnRec::OpenChannel { result: Ok(id), invoke, ret, for_thread, keep, .. } = c {
             by_ch.entry(*id).or_default().push(SyncCall { want: Want::ChannelOpenOk, rec: None, invoke: *invoke, ret: *ret, desc: format!("open_channel -> {}", id) });
-            if *for_thread == 0 {
+            if *for_thread == 0 && !*keep {
                 by_ch.entry(*id).or_default().push(SyncCall { want: Want::ChannelCloseOk, rec: None, invoke: *ret, ret: u64::MAX, desc: format!("owner close {}", id) });
             }
         }
